@@ -205,21 +205,31 @@ Definition NIL := 0.
 Definition EOF := 1.
 Definition OTHER := 2.
 
-(** bytes.Reader.ReadAt (the "exact ReadAt"): all requested bytes or what is
-    left together with io.EOF. *)
-Definition read_at (file : list Z) (off k : Z) : list Z * Z :=
+(** The io.ReaderAt under File, by its contract: ReadAt(p, off) delivers
+    n = min(len p, size - off) bytes of the source; the error is io.EOF when
+    n < len p (mandatory), nil when the bytes do not end at the end of the
+    source, and EITHER nil OR io.EOF when all len p bytes were delivered and
+    they end exactly at the end of the source ("ReadAt may return either
+    err == EOF or err == nil").  [eof_at_end] is that choice for this call.
+    bytes.Reader / strings.Reader / os.File always choose nil.  A start at or
+    beyond the end gives (0, io.EOF), a negative one an error. *)
+Definition read_at (file : list Z) (eof_at_end : bool) (off k : Z) : list Z * Z :=
   if off <? 0 then ([], OTHER)
   else if zlen file <=? off then ([], EOF)
   else let got := firstn (Z.to_nat k) (skipn (Z.to_nat off) file) in
-       (got, if zlen got <? k then EOF else NIL).
+       (got, if zlen got <? k then EOF
+             else if (off + k =? zlen file) && eof_at_end then EOF else NIL).
 
 (** The loop of Seq.Read.  [blen] is len(b) (what is left of the caller's
-    buffer), [acc] the bytes delivered so far.  Every iteration that
-    continues has advanced [cur] by at least one base; an iteration that
-    would continue without progress is the Go loop spinning for ever and is
-    reported as [Stuck].  Result: bytes, new cursor, error value. *)
-Fixpoint read_loop (file : list Z) (r : frec) (endoff send : Z) (fuel : nat)
-         (cur blen : Z) (acc : list Z) : outcome (list Z * Z * Z) :=
+    buffer), [acc] the bytes delivered so far.  [ch] is the reader's choice
+    for every ReadAt call of the whole history (call number -> EOF together
+    with the last bytes of the source or not), [c] the number of calls made
+    so far.  Every iteration that continues has advanced [cur] by at least
+    one base; an iteration that would continue without progress is the Go
+    loop spinning for ever and is reported as [Stuck].  Result: bytes, new
+    cursor, error value, calls made. *)
+Fixpoint read_loop (file : list Z) (ch : nat -> bool) (r : frec) (endoff send : Z) (fuel : nat)
+         (c : nat) (cur blen : Z) (acc : list Z) : outcome (list Z * Z * Z * nat) :=
   if cur <? send then
     match fuel with
     | O => Stuck
@@ -230,47 +240,53 @@ Fixpoint read_loop (file : list Z) (r : frec) (endoff send : Z) (fuel : nat)
       let k := Z.min eol blen in
       if k <? 0 then Panic 2          (* b[:k] with negative k: slice bounds out of range *)
       else
-        let '(got, err) := read_at file curoff k in
+        let '(got, err) := read_at file (ch c) curoff k in
         let n := zlen got in
         let cur' := cur + n in
         let blen' := blen - n in
         let acc' := acc ++ got in
-        if negb (err =? NIL) || (blen' =? 0) then Ok (acc', cur', err)
+        if negb (err =? NIL) || (blen' =? 0) then Ok (acc', cur', err, S c)
         else if n =? 0 then Stuck
-        else read_loop file r endoff send fuel' cur' blen' acc'))
+        else read_loop file ch r endoff send fuel' (S c) cur' blen' acc'))
     end
-  else Ok (acc, cur, EOF).
+  else Ok (acc, cur, EOF, c).
 
 (** Seq.Read(b) with len(b) = blen. *)
-Definition seq_read (file : list Z) (q : seqst) (blen : Z) : outcome (list Z * Z) * seqst :=
-  if blen =? 0 then (Ok ([], NIL), q)
-  else if q_end q <=? q_cur q then (Ok ([], EOF), q)
+Definition seq_read (file : list Z) (ch : nat -> bool) (c : nat) (q : seqst) (blen : Z)
+  : outcome (list Z * Z) * seqst * nat :=
+  if blen =? 0 then (Ok ([], NIL), q, c)
+  else if q_end q <=? q_cur q then (Ok ([], EOF), q, c)
   else
     match position (q_rec q) (q_end q) with
     | Ok endoff =>
-      match read_loop file (q_rec q) endoff (q_end q) (Z.to_nat (q_end q - q_cur q)) (q_cur q) blen [] with
-      | Ok (bs, cur', err) => (Ok (bs, err), mkSeq (q_rec q) cur' (q_start q) (q_end q))
-      | Err e => (Err e, q)
-      | Panic w => (Panic w, q)
-      | Stuck => (Stuck, q)
+      match read_loop file ch (q_rec q) endoff (q_end q) (Z.to_nat (q_end q - q_cur q)) c (q_cur q) blen [] with
+      | Ok (bs, cur', err, c') => (Ok (bs, err), mkSeq (q_rec q) cur' (q_start q) (q_end q), c')
+      | Err e => (Err e, q, c)
+      | Panic w => (Panic w, q, c)
+      | Stuck => (Stuck, q, c)
       end
-    | Err e => (Err e, q)
-    | Panic w => (Panic w, q)
-    | Stuck => (Stuck, q)
+    | Err e => (Err e, q, c)
+    | Panic w => (Panic w, q, c)
+    | Stuck => (Stuck, q, c)
     end.
 
 Definition seq_reset (q : seqst) : seqst := mkSeq (q_rec q) (q_start q) (q_start q) (q_end q).
 
 (** A script of calls on one Seq: Read with a buffer of the given size, or
     Reset for a negative entry.  One result per Read. *)
-Fixpoint seq_script (file : list Z) (q : seqst) (sizes : list Z) : list (outcome (list Z * Z)) :=
+Fixpoint seq_script (file : list Z) (ch : nat -> bool) (c : nat) (q : seqst) (sizes : list Z)
+  : list (outcome (list Z * Z)) :=
   match sizes with
   | [] => []
   | k :: t =>
-    if k <? 0 then seq_script file (seq_reset q) t
-    else let '(o, q') := seq_read file q k in
-         o :: match o with Ok _ => seq_script file q' t | _ => [] end
+    if k <? 0 then seq_script file ch c (seq_reset q) t
+    else let '(o, q', c') := seq_read file ch c q k in
+         o :: match o with Ok _ => seq_script file ch c' q' t | _ => [] end
   end.
+
+(** The readers of the harness: never / always io.EOF with the last bytes. *)
+Definition lazy_eof : nat -> bool := fun _ => false.
+Definition eager_eof : nat -> bool := fun _ => true.
 
 (* ------------------------------------------------------ WriteTo / ReadFrom *)
 
@@ -507,6 +523,29 @@ Fixpoint ideal_script (data rest : list Z) (sizes : list Z) : list (outcome (lis
          :: ideal_script data (skipn (Z.to_nat k) rest) t
   end.
 
+(** The io.Reader contract over a byte string, as a checker of a script's
+    results: a Read with a buffer of [k] > 0 bytes delivers exactly the next
+    min(k, remaining) bytes; its error is io.EOF when fewer than [k] were
+    left, nil when more than [k] were left, and either of the two when
+    exactly [k] were left (io.EOF together with the last bytes, or on the
+    next call); a Read with an empty buffer delivers nothing and nil; a
+    negative entry rewinds.  [ideal_script] is the behaviour that always
+    chooses nil. *)
+Fixpoint conforms (data rest : list Z) (sizes : list Z) (rs : list (outcome (list Z * Z))) : bool :=
+  match sizes with
+  | [] => is_nil rs
+  | k :: t =>
+    if k <? 0 then conforms data data t rs
+    else match rs with
+         | Ok (d, e) :: rs' =>
+           if k =? 0 then is_nil d && (e =? NIL) && conforms data rest t rs'
+           else bytes_eqb d (firstn (Z.to_nat k) rest)
+                && ((e =? (if zlen rest <? k then EOF else NIL)) || ((e =? EOF) && (zlen rest =? k)))
+                && conforms data (skipn (Z.to_nat k) rest) t rs'
+         | _ => false
+         end
+  end.
+
 (** Reading a stream to its end: the bytes of all calls up to and including
     the first one that reports io.EOF; [None] when a call fails or the script
     ends before io.EOF is seen. *)
@@ -567,12 +606,14 @@ Fixpoint reads_agree (m : list (outcome (list Z * Z))) (o : list obs_read) : boo
 (** A query: Seq (whole = true) or SeqRange name s e, then the script.
     Observation: error class of opening (0 = nil) and the Read results. *)
 Record query := mkQ { qy_name : list Z; qy_whole : bool; qy_s : Z; qy_e : Z; qy_sizes : list Z;
-                      qy_open : Z; qy_reads : list obs_read }.
+                      qy_open : Z; qy_reads : list obs_read;       (* over bytes.Reader *)
+                      qy_reads_eager : list obs_read }.            (* over the eager-EOF ReaderAt *)
 
 Definition query_agree (file : list Z) (idx : list frec) (q : query) : bool :=
   match (if qy_whole q then file_seq idx (qy_name q) else file_seqrange idx (qy_name q) (qy_s q) (qy_e q)) with
-  | Ok st => (qy_open q =? 0) && reads_agree (seq_script file st (qy_sizes q)) (qy_reads q)
-  | Err e => (qy_open q =? e) && is_nil (qy_reads q)
+  | Ok st => (qy_open q =? 0) && reads_agree (seq_script file lazy_eof O st (qy_sizes q)) (qy_reads q)
+             && reads_agree (seq_script file eager_eof O st (qy_sizes q)) (qy_reads_eager q)
+  | Err e => (qy_open q =? e) && is_nil (qy_reads q) && is_nil (qy_reads_eager q)
   | _ => false
   end.
 
